@@ -64,7 +64,7 @@ class Observer:
         self.first_sha = {}
         self.seen_points = 0
 
-    def observe(self, allowed, label, expect_all=None, check_reader=True):
+    def observe(self, allowed, label, expect_all=None, check_reader=True, fill_ok=False):
         """allowed: dict abs index -> row bytes that may legitimately be on disk at this point.
         expect_all: if given, dict of samples that MUST all be readable (after a clean close).
         Returns list of (key, detail)."""
@@ -98,7 +98,7 @@ class Observer:
                     errs.append(({"class": "final_file_sample_outside_window"}, "%s: %s holds %d" % (label, rel, k)))
                     break
                 if k in allowed:
-                    if allowed[k] != row:
+                    if allowed[k] != row and not (fill_ok and cfg.unchunked() and rf.rows_equal_fill(cfg, row)):
                         errs.append(({"class": "final_file_wrong_value"}, "%s: %s index %d" % (label, rel, k)))
                         break
                 elif not (cfg.unchunked() and rf.rows_equal_fill(cfg, row)):
